@@ -138,6 +138,46 @@ CHECKS = {
         "SQLAlchemy's internals are not modelled); a refusal raised by the host ORM itself (Django FieldError) is counted as a refusal. Nine leaks were repaired first "
         "(fix: b3ff485 c4949ac 0ae8f2a a3e3835 2c1d307 aff910a a628179 4813a75 3d0299d e93080a 235cac7).",
    design="§6 C12", technique="Lean 4 proof (never-foreign by mutual induction + kernel-checked arity table) + tie theorems on handler matrix and exception tree + exhaustive differential correspondence + outcome classification on all seven backends"),
+ "C01": dict(
+   text="Lean 4 theorem `C01.where_selects` (Props/C01Full.lean): for EVERY filter b of the typed scalar grammar (integer / string / Boolean terms, any nesting: arithmetic, "
+        "comparisons, in-lists, null tests, and/or/not, Boolean functions compared with true/false, length / indexof / substring / concat / tolower / toupper / trim / contains / "
+        "startswith / endswith) and EVERY row inside semOkB, the model of the SQLite dialect emits a WHERE text which, read by the independent SQL tokeniser and parser, is a tree "
+        "whose evaluation by the SQLite model selects the row iff OData's three-valued semantics makes b true - the chain translates -> C07.lex_pieces -> C09.parse_mirror -> "
+        "C01.sound (LIKE vs ordinal substring search, 0-based/1-based shifts, Kleene logic, IS NULL, IN as a Kleene disjunction; 1700 lines). typed_sqlSafe / typed_litOk show "
+        "every typed filter meets the side conditions. Executed on every run: typed filters rendered to TEXT by the reference printer -> real parser -> real SQLite dialect -> "
+        "sqlite3 on a 432-row product table and random tables; ids compared row by row with Spec.evalB (700 000 (filter,row) pairs) and with Spec.SqliteSem on the re-read text.",
+   note="Trusted: Lean kernel, standard axioms, Spec/ODataSem.lean (reference semantics, profile decisions of DESIGN §4), Spec/SqliteSem.lean (environment model of SQLite, validated against sqlite3 "
+        "each run), Spec/SqlLex+SqlParse, harness. semOkB excludes negative substring positions (unspecified), NUL, wrong storage classes, and the two LIKE known findings (ASCII case folding; "
+        "wildcards in a computed pattern) which have Lean witnesses. Dates, floats and 64-bit overflow are outside the semantic model (their translation is covered structurally by C09). "
+        "fix: a701528 c4949ac 329d7a6 fae5465.",
+   design="§6 C01", technique="Lean 4 proof (end-to-end: printer model -> character-level lexing -> precedence-climbing parse -> semantic preservation by mutual induction over a typed grammar) + tie theorems + differential execution against sqlite3"),
+ "C02": dict(
+   text="Lean 4: model of AstToDjangoQVisitor (Model/Orm.lean djBuild: F / Value parameters / lookups / Q composition / function table with index shifts / type checks / refusals) "
+        "composed with the environment model of Django's SQLite compiler (Spec/OrmSql.lean djSql) and of SQLite; theorems `C02.sound` (for every typed filter the visitor translates "
+        "and every row inside semOkDj the compiled SQL selects the row iff OData's semantics makes the filter true), dj_never_leaks, dj_translates (Props/C02.lean when present). "
+        "Executed on every run: typed filters as TEXT through apply_odata_query (QuerySet and Manager) on in-memory SQLite, ids compared row by row with Spec.evalB and with the "
+        "environment model (150 000+ (filter,row) pairs), visitor outcome classes compared with the model, case-twin sequences.",
+   note="Trusted: Lean kernel, standard axioms, Spec/ODataSem, Spec/SqliteSem + Spec/OrmSql (environment models, validated each run), harness. Known findings (excluded by semOkDj, counted, Lean-characterised): "
+        "LIKE case folding on SQLite, Concat's COALESCE, Django not parenthesising negated / '('-initial operands of = / <>. The Django tests are not collected by the pinned command; "
+        "they were run by hand after every fix (98 passed). fix: 4813a75 3d0299d e93080a.",
+   design="§6 C02", technique="Lean 4 proof over visitor model + environment model (semantic preservation by mutual induction) + tie theorems on handler / literal tables + differential execution through the real shorthand"),
+ "C03": dict(
+   text="Lean 4: model of the shared SQLAlchemy visitors (saBuild) + environment model of SQLAlchemy's SQLite compiler (saSql); theorems (Props/C03.lean when present) `C03.sound`, "
+        "orm_core_agree (ORM and Core build the same tree for every typed filter), keyword_case (TRUE / True / true), sa_never_leaks, sa_translates. Executed on every run: typed filters as "
+        "TEXT through apply_odata_query(select(Model)), apply_odata_query(session.query(Model)) and apply_odata_core(select(table)) on in-memory SQLite: the three entry styles must agree, "
+        "ids compared row by row with Spec.evalB and the environment model (170 000+ pairs), upper-case Boolean keywords, case-twin sequences in one process.",
+   note="Trusted: as C02. Known findings: LIKE case folding, wildcards in a computed pattern, div is true division (pinned structurally by the suite); indexof / concat use functions SQLite lacks (outside the "
+        "supported fragment on SQLite). fix: 7c0cf2f e81d1f7 235cac7 2c1d307.",
+   design="§6 C03", technique="Lean 4 proof over visitor model + environment model + tie theorems + differential execution through the three real entry styles"),
+ "C08": dict(
+   text="Lean 4 theorems over the models of the Django and SQLAlchemy visitors (OTree: columns, BOUND PARAMETERS, the library's own integer parameters, inline constants): dj_params / "
+        "sa_params - the bound parameters of a successful translation are exactly the filter's literals in order; dj_skeleton / sa_skeleton - two filters that differ only in literal values "
+        "translate to trees with the same skeleton. Tie theorems: every literal handler's return expression, re-extracted from the source on every run, is Value(...) / literal(...) "
+        "(orm_literals_are_parameters). Executed: model parameters found among the real compiled parameters for every well-typed filter; 28 templates x literal pairs of every kind and in-lists of "
+        "3 / 101 / 120+ elements through the four shorthand entry styles - compiled SQL (post-compile parameters rendered) identical, values only in the parameter list.",
+   note="Trusted: Lean kernel, standard axioms, harness; that Value()/literal() compile to placeholders is Django's / SQLAlchemy's behaviour, observed on the compiled statements. Known finding: autoescape "
+        "adds ESCAPE '/' only for literal substrings with a wildcard (Lean witness kf_autoescape; consequence of fix e81d1f7).",
+   design="§6 C08", technique="Lean 4 proof (parameters = literals, skeleton invariance, by structural induction with handler plans) + tie theorems on literal-handler source + differential compilation through the real shorthands"),
 }
 NOT_APPLICABLE = {}
 
